@@ -57,7 +57,7 @@ pub enum QAct {
 }
 
 /// the well-known string qualifiers and the keys the PURL specification gives them
-pub const OTHER_TYPED: [&str; 6] = ["download_url", "vcs_url", "file_name", "classifier", "type", "platform"];
+pub const OTHER_TYPED: [&str; 7] = ["download_url", "vcs_url", "file_name", "classifier", "type", "platform", "build_tag"];
 
 fn insert_other(q: &mut Qualifiers, kind: u8, v: &'static str) {
     use purl::qualifiers::well_known::{gem, maven, DownloadUrl, FileName, VcsUrl};
@@ -67,7 +67,8 @@ fn insert_other(q: &mut Qualifiers, kind: u8, v: &'static str) {
         2 => q.insert_typed(FileName::from(v)),
         3 => q.insert_typed(maven::Classifier::from(v)),
         4 => q.insert_typed(maven::Type::from(v)),
-        _ => q.insert_typed(gem::Platform::from(v)),
+        5 => q.insert_typed(gem::Platform::from(v)),
+        _ => q.insert_typed(BuildTag(v)),
     }
 }
 fn remove_other(q: &mut Qualifiers, kind: u8) {
@@ -78,7 +79,8 @@ fn remove_other(q: &mut Qualifiers, kind: u8) {
         2 => q.remove_typed::<FileName>(),
         3 => q.remove_typed::<maven::Classifier>(),
         4 => q.remove_typed::<maven::Type>(),
-        _ => q.remove_typed::<gem::Platform>(),
+        5 => q.remove_typed::<gem::Platform>(),
+        _ => q.remove_typed::<BuildTag>(),
     }
 }
 fn get_other(q: &Qualifiers, kind: u8) -> (Option<String>, bool) {
@@ -89,7 +91,8 @@ fn get_other(q: &Qualifiers, kind: u8) -> (Option<String>, bool) {
         2 => (q.get_typed::<FileName>().map(|x| x.to_string()), q.contains_typed::<FileName>()),
         3 => (q.get_typed::<maven::Classifier>().map(|x| x.to_string()), q.contains_typed::<maven::Classifier>()),
         4 => (q.get_typed::<maven::Type>().map(|x| x.to_string()), q.contains_typed::<maven::Type>()),
-        _ => (q.get_typed::<gem::Platform>().map(|x| x.to_string()), q.contains_typed::<gem::Platform>()),
+        5 => (q.get_typed::<gem::Platform>().map(|x| x.to_string()), q.contains_typed::<gem::Platform>()),
+        _ => (q.get_typed::<BuildTag>().map(|x| x.0.to_owned()), q.contains_typed::<BuildTag>()),
     }
 }
 
@@ -117,7 +120,7 @@ fn pred_ref(p: u8, k: &str, v: &str) -> bool {
         3 => k < "b",
         4 => !v.is_empty(),
         5 => v == "x",
-        6 => k.starts_with('b'),
+        6 => k.starts_with('z'),
         _ => k.len() > 1,
     }
 }
@@ -129,7 +132,7 @@ fn pred_real(p: u8, k: &purl::qualifiers::QualifierKey, v: &str) -> bool {
         3 => k.partial_cmp("B") == Some(std::cmp::Ordering::Less),            // case-insensitive PartialOrd<str>
         4 => !v.is_empty(),
         5 => v == "x",
-        6 => k.as_str().starts_with('b'),
+        6 => k.as_str().starts_with('z'),
         _ => k.len() > 1,
     }
 }
@@ -141,7 +144,9 @@ impl QModel {
         let mut acts = Vec::new();
         for kind in 0..OTHER_TYPED.len() as u8 {
             acts.push(QAct::InsertTypedOther(kind, "x".to_owned()));
-            acts.push(QAct::InsertTypedOther(kind, "y/z?".to_owned()));
+            if kind < 2 || kind == 6 {
+                acts.push(QAct::InsertTypedOther(kind, "y/z?".to_owned()));
+            }
             acts.push(QAct::RemoveTypedOther(kind));
             acts.push(QAct::Remove(OTHER_TYPED[kind as usize].to_ascii_uppercase()));
             acts.push(QAct::Insert(OTHER_TYPED[kind as usize].to_ascii_uppercase(), "k".to_owned()));
@@ -160,8 +165,8 @@ impl QModel {
             invalid = s(&["", "!"]);
         } else {
             keys = match tier {
-                Tier::Quick => s(&["a", "A", "ab", "Ab", "aB", "a_", "A_", "k", "K", "b-1", "B-1"]),
-                Tier::Thorough => s(&["a", "A", "ab", "Ab", "aB", "a_", "A_", "k", "K", "b-1", "B-1", "b.", "B."]),
+                Tier::Quick => s(&["a", "A", "ab", "Ab", "aB", "a_", "A_", "k", "K", "z-9", "Z-9"]),
+                Tier::Thorough => s(&["a", "A", "ab", "Ab", "aB", "a_", "A_", "k", "K", "z-9", "Z-9", "b.", "B."]),
             };
             values = match tier {
                 Tier::Quick => s(&["", "x", "Y"]),
